@@ -5,6 +5,7 @@
 //	p1  = Persist() runs until the backend's PutChangeSet is entered   (maps swapped, tempstore installed)
 //	p2  = the backend's PutChangeSet is executed                        (written, tempstore still installed)
 //	p3  = Persist() returns                                             (tempstore removed)
+//	pfail = instead of p2: the backend's PutChangeSet fails, Persist merges the swapped-out maps back and returns
 //	r1  = Seek()/SeekAsync() runs until the backend's Seek is entered   (snapshot of the top maps taken, ps captured)
 //	r2  = the backend scan and the merge run, the reader returns
 //
@@ -15,7 +16,9 @@ import (
 	"context"
 	"errors"
 	"fmt"
+	"os"
 	"sort"
+	"strings"
 	"sync/atomic"
 	"testing"
 	"time"
@@ -34,6 +37,8 @@ type gateStore struct {
 	inner storage.Store
 	on    atomic.Bool
 	arr   chan arrival
+	// failNext makes the next PutChangeSet fail without writing (Persist's restore path)
+	failNext atomic.Bool
 }
 
 func (g *gateStore) wait(op string) {
@@ -46,8 +51,13 @@ func (g *gateStore) wait(op string) {
 }
 
 func (g *gateStore) Get(k []byte) ([]byte, error) { return g.inner.Get(k) }
+var errInjected = errors.New("injected backend failure")
+
 func (g *gateStore) PutChangeSet(p, s map[string][]byte) error {
 	g.wait("put")
+	if g.failNext.Swap(false) {
+		return errInjected // nothing written
+	}
 	err := g.inner.PutChangeSet(p, s)
 	g.wait("putdone")
 	return err
@@ -69,23 +79,79 @@ type CStep struct {
 	Res   []pair `json:"res"`
 }
 
-const gateTimeout = 20 * time.Second
+const (
+	gateTimeout = 60 * time.Second // everything must have finished by then once all gates are open (else: deadlock)
+	stepTimeout = 2 * time.Second  // a step of the schedule that does not get where the model says it gets
+)
+
+// errInfeasible: the real code cannot take the schedule's next step at this point (for example a writer blocked
+// by a lock the model does not know of). Not a verdict: the schedule is abandoned, all gates are opened, and it only
+// becomes an error if the goroutines then fail to finish.
+var errInfeasible = errors.New("schedule not feasible on the real code")
 
 type reader struct {
 	rel  chan struct{}
 	done chan []pair
+	fin  chan struct{}
 }
 
 func expect(g *gateStore, op string) (arrival, error) {
 	select {
 	case a := <-g.arr:
 		if a.op != op {
-			return a, fmt.Errorf("goroutine arrived at gate %q, expected %q", a.op, op)
+			close(a.release)
+			return arrival{}, fmt.Errorf("goroutine arrived at gate %q, expected %q", a.op, op)
 		}
 		return a, nil
-	case <-time.After(gateTimeout):
-		return arrival{}, fmt.Errorf("no goroutine arrived at gate %q", op)
+	case <-time.After(stepTimeout):
+		return arrival{}, fmt.Errorf("%w: no goroutine arrived at gate %q", errInfeasible, op)
 	}
+}
+
+// bounded runs f in a goroutine and waits for it for at most stepTimeout.
+func bounded(fins *[]chan struct{}, f func() error) error {
+	fin := make(chan struct{})
+	var e error
+	*fins = append(*fins, fin)
+	go func() { defer close(fin); e = f() }()
+	select {
+	case <-fin:
+		return e
+	case <-time.After(stepTimeout):
+		return fmt.Errorf("%w: call blocked", errInfeasible)
+	}
+}
+
+// situation names the circumstances of a step: its kind, whether a reader sits between r1 and r2, and where the
+// persister is. Situations in which the real code repeatedly could not take the step are remembered, and schedules
+// that would run into one of them are skipped (they cost a timeout each).
+func situation(kind string, readersPending int, ppc int) string {
+	return fmt.Sprintf("%s/readers=%v/ppc=%d", kind, readersPending > 0, ppc)
+}
+
+var infeasibleSeen = map[string]int{}
+
+// feasiblePrefix cuts the schedule before the first step that is known not to be possible in its situation.
+func feasiblePrefix(sched []CStep) ([]CStep, bool) {
+	ppc, pend := 0, map[int]bool{}
+	for i, x := range sched {
+		if infeasibleSeen[situation(x.A, len(pend), ppc)] >= 3 {
+			return sched[:i], true
+		}
+		switch x.A {
+		case "p1":
+			ppc = 1
+		case "p2":
+			ppc = 2
+		case "p3", "pfail":
+			ppc = 0
+		case "r1":
+			pend[x.R] = true
+		case "r2":
+			delete(pend, x.R)
+		}
+	}
+	return sched, false
 }
 
 // runSchedule executes one schedule; returns an error if the schedule could not be reproduced (infrastructure).
@@ -114,12 +180,13 @@ func runSchedule(res *vh.Result, tr *vh.Trace, src, bname string, sched []CStep)
 		persistDone chan error
 		pgate       arrival
 		readers     = map[int]*reader{}
+		fins        []chan struct{} // closed when the goroutines started by this schedule end
 	)
 	defer func() {
 		if err == nil {
 			return
 		}
-		// never leave goroutines blocked or running into the next schedule: open the gates and wait
+		// never leave goroutines blocked or running into the next schedule: open the gates and wait for them
 		g.on.Store(false)
 		if pgate.release != nil {
 			func() { defer func() { _ = recover() }(); close(pgate.release) }()
@@ -130,61 +197,107 @@ func runSchedule(res *vh.Result, tr *vh.Trace, src, bname string, sched []CStep)
 			}
 		}
 		deadline := time.After(gateTimeout)
-		for n := 0; n < 200; n++ {
-			select {
-			case a := <-g.arr:
-				close(a.release)
-			case <-time.After(20 * time.Millisecond):
-				n = 200
-			case <-deadline:
-				n = 200
+		for _, fin := range fins {
+			for open := true; open; {
+				select {
+				case <-fin:
+					open = false
+				case a := <-g.arr:
+					close(a.release)
+				case <-deadline:
+					err = fmt.Errorf("goroutines did not finish after all gates were opened (deadlock?): %w", err)
+					return
+				}
 			}
+		}
+		if errors.Is(err, errInfeasible) {
+			res.Inc("schedules_infeasible", 1)
+			res.AddDrift(map[string]any{"src": src, "backend": bname, "what": "schedule of KVPersistConc not feasible on the real code", "why": err.Error()})
+			err = nil
 		}
 	}()
 	sched = complete(sched)
+	if pre, cut := feasiblePrefix(sched); cut {
+		res.Inc("schedules_cut_infeasible", 1)
+		sched = complete(pre)
+	}
+	ppc := 0
 	for i, st := range sched {
+		sit := situation(st.A, len(readers), ppc)
+		switch st.A {
+		case "p1":
+			ppc = 1
+		case "p2":
+			ppc = 2
+		case "p3", "pfail":
+			ppc = 0
+		}
+		defer func(sit string, i int) {
+			if errors.Is(err, errInfeasible) && !strings.Contains(err.Error(), "@") {
+				err = fmt.Errorf("@%s: %w", sit, err)
+				infeasibleSeen[sit]++
+			}
+		}(sit, i)
 		switch st.A {
 		case "write":
 			p, m := splitMaps(st.Batch)
-			if e := s.PutChangeSet(p, m); e != nil {
-				return e
+			if e := bounded(&fins, func() error { return s.PutChangeSet(p, m) }); e != nil {
+				return fmt.Errorf("step %d write: %w", i, e)
 			}
 			tr.Emit(map[string]any{"event": "cwrite", "items": st.Batch})
 		case "p1":
 			persistDone = make(chan error, 1)
-			go func() { _, e := s.Persist(); persistDone <- e }()
+			fin := make(chan struct{})
+			fins = append(fins, fin)
+			go func() { defer close(fin); _, e := s.Persist(); persistDone <- e }()
 			if pgate, err = expect(g, "put"); err != nil {
 				return fmt.Errorf("step %d p1: %w", i, err)
 			}
 			tr.Emit(map[string]any{"event": "cp", "step": "p1"})
 		case "p2":
 			close(pgate.release)
+			pgate.release = nil
 			if pgate, err = expect(g, "putdone"); err != nil {
 				return fmt.Errorf("step %d p2: %w", i, err)
 			}
 			tr.Emit(map[string]any{"event": "cp", "step": "p2"})
 		case "p3":
 			close(pgate.release)
+			pgate.release = nil
 			select {
 			case e := <-persistDone:
 				if e != nil {
 					return e
 				}
-			case <-time.After(gateTimeout):
-				return fmt.Errorf("step %d p3: Persist did not return", i)
+			case <-time.After(stepTimeout):
+				return fmt.Errorf("step %d p3: %w: Persist did not return", i, errInfeasible)
 			}
 			tr.Emit(map[string]any{"event": "cp", "step": "p3"})
+		case "pfail":
+			g.failNext.Store(true)
+			close(pgate.release)
+			pgate.release = nil
+			select {
+			case e := <-persistDone:
+				if !errors.Is(e, errInjected) {
+					return fmt.Errorf("step %d pfail: Persist returned %v instead of the injected error", i, e)
+				}
+			case <-time.After(stepTimeout):
+				return fmt.Errorf("step %d pfail: %w: Persist did not return", i, errInfeasible)
+			}
+			tr.Emit(map[string]any{"event": "cp", "step": "pfail"})
 		case "psync":
 			g.on.Store(false) // PersistSync holds the lock across the write: one atomic step
-			_, e := s.PersistSync()
+			e := bounded(&fins, func() error { _, e := s.PersistSync(); return e })
 			g.on.Store(true)
 			if e != nil {
-				return e
+				return fmt.Errorf("step %d psync: %w", i, e)
 			}
 			tr.Emit(map[string]any{"event": "cp", "step": "psync"})
 		case "r1":
-			rd := &reader{done: make(chan []pair, 1)}
+			rd := &reader{done: make(chan []pair, 1), fin: make(chan struct{})}
 			readers[st.R] = rd
+			fins = append(fins, rd.fin)
 			rng := storage.SeekRange{Prefix: prefix}
 			async := st.R%2 == 0
 			go func() {
@@ -194,6 +307,7 @@ func runSchedule(res *vh.Result, tr *vh.Trace, src, bname string, sched []CStep)
 						out = append(out, pair{[]int{-9}, []int{-9}})
 					}
 					rd.done <- out
+					close(rd.fin)
 				}()
 				if async {
 					for kv := range s.SeekAsync(context.Background(), rng, false) {
@@ -215,11 +329,12 @@ func runSchedule(res *vh.Result, tr *vh.Trace, src, bname string, sched []CStep)
 				return errors.New("r2 without r1")
 			}
 			close(rd.rel)
+			rd.rel = nil
 			var out []pair
 			select {
 			case out = <-rd.done:
-			case <-time.After(gateTimeout):
-				return fmt.Errorf("step %d r2: reader did not return", i)
+			case <-time.After(stepTimeout):
+				return fmt.Errorf("step %d r2: %w: reader did not return", i, errInfeasible)
 			}
 			delete(readers, st.R)
 			if len(out) > 0 && len(out[len(out)-1][0]) == 1 && out[len(out)-1][0][0] == -9 {
@@ -236,12 +351,13 @@ func runSchedule(res *vh.Result, tr *vh.Trace, src, bname string, sched []CStep)
 			}
 		case "get":
 			k := bts(st.Batch[0][0])
-			v, e := s.Get(k)
+			var v []byte
+			e := bounded(&fins, func() error { var e error; v, e = s.Get(k); return e })
 			r := notFound
 			if e == nil {
 				r = ints(v)
 			} else if !errors.Is(e, storage.ErrKeyNotFound) {
-				return e
+				return fmt.Errorf("step %d get: %w", i, e)
 			}
 			tr.Emit(map[string]any{"event": "cget", "key": st.Batch[0][0], "res": r})
 			res.Count([]any{"cget", trail(sched[:i+1]), r})
@@ -268,7 +384,7 @@ func complete(s []CStep) []CStep {
 			ppc = 1
 		case "p2":
 			ppc = 2
-		case "p3":
+		case "p3", "pfail":
 			ppc = 0
 		case "r1":
 			pending[x.R] = true
@@ -310,8 +426,12 @@ func TestConcDriver(t *testing.T) {
 		t.Fatalf("no schedules: %v", err)
 	}
 	failed := 0
+	bs := backends
+	if b := os.Getenv("VERIF_BACKENDS"); b != "" {
+		bs = []string{b}
+	}
 	for i, s := range scheds {
-		for _, b := range backends {
+		for _, b := range bs {
 			if err := runSchedule(res, tr, fmt.Sprintf("conc-%d", i), b, s); err != nil {
 				t.Logf("schedule %d on %s not reproduced: %v", i, b, err)
 				failed++
